@@ -78,6 +78,12 @@ func NewFileCache[MetadataT any](cfg *config.Config, rootDir string, maxCacheSiz
 		getLock: func(key CacheKey) *sync.RWMutex {
 			return getLock(c.locks, key)
 		},
+		peekMetadata: func(key CacheKey) (*EntryMetadata[MetadataT], bool) {
+			c.mu.RLock()
+			defer c.mu.RUnlock()
+			meta, ok := c.entriesMetadata[key]
+			return meta, ok
+		},
 	})
 	c.janitor.start(ctx)
 	return c
